@@ -78,13 +78,16 @@ def gen_events(ctx):
     for k in range(n_cli):
         base = rng.choice((33, 33, 64))
         reads = []
+        binned = rng.random() < 0.3            # identical (binned) quality strings, different bases: state must not leak between reads
+        fixed_n = rng.randint(4, 20)
+        fixed_q = chr(min(126, base + rng.choice((12, 25, 37))))
         for r in range(rng.randint(1, 9)):
-            n = rng.randint(0, 25)
+            n = fixed_n if binned else rng.randint(0, 25)
             seq = "".join(rng.choice("ACGTG") for _ in range(n))
             if rng.random() < 0.4 and n:
                 j = rng.randint(0, n)
                 seq = seq[:j] + "G" * (n - j)
-            qs = "".join(chr(min(126, base + rng.choice((1, 3, 8, 10, 12, 20, 25, 35)))) for _ in range(n))
+            qs = fixed_q * n if binned else "".join(chr(min(126, base + rng.choice((1, 3, 8, 10, 12, 20, 25, 35)))) for _ in range(n))
             reads.append((f"r{r}", seq, qs))
         ns = rng.choice((-1, -1, 10, 20))
         mode = rng.choice(("none", "3", "53")) if ns >= 0 else rng.choice(("3", "53"))
